@@ -204,7 +204,11 @@ func robustOne(rc *RunCtx) *Violation {
 			case "ParseString":
 				return p.ParseString(filename, d, popts...)
 			case "ParseBytes":
-				return p.ParseBytes(filename, []byte(d), popts...)
+				// the buffer is the caller's and is refilled as soon as the call has returned
+				buf := []byte(d)
+				v, err := p.ParseBytes(filename, buf, popts...)
+				scribble(buf)
+				return v, err
 			default:
 				if simrt.Choose(4) == 1 {
 					// a standard-library reader the caller has already read a header from
